@@ -37,6 +37,12 @@ def padRegion (r : Region) (padN padE : Rat) : Region :=
 def insidePt (r : Region) (e n : Rat) : Bool :=
   decide (r.w ≤ e) && decide (e ≤ r.e) && decide (r.s ≤ n) && decide (n ≤ r.n)
 
+/-- `inside` for coordinates that may be NaN (`none`): every comparison with NaN is false, so such a point is outside. -/
+def insidePtOpt (r : Region) (e n : Option Rat) : Bool :=
+  match e, n with
+  | some e, some n => insidePt r e n
+  | _, _ => false
+
 /-- `spacing_to_size` for `spacing > 0`, returning `(size, stop)`. -/
 def spacingToSize (start stop spacing : Rat) (adjustRegion : Bool) : Int × Rat :=
   let size0 : Int := roundHalfEven ((stop - start) / spacing) + 1
@@ -177,6 +183,7 @@ inductive Proj where
   | square                      -- (e², n²)             non-monotone across 0
   | shear (k : Rat)             -- (e + k·n, n − k·e)   not axis-aligned
   | lin (a11 a12 a21 a22 b1 b2 : Rat)   -- general affine map
+  | radial (a b : Rat)          -- ((e−a)² + (n−b)², n − b·e)   coupled, extremum strictly inside a region around (a, b)
   deriving Repr
 
 def Proj.apply : Proj → Rat × Rat → Rat × Rat
@@ -185,6 +192,7 @@ def Proj.apply : Proj → Rat × Rat → Rat × Rat
   | .square, (e, n) => (e * e, n * n)
   | .shear k, (e, n) => (e + k * n, n - k * e)
   | .lin a11 a12 a21 a22 b1 b2, (e, n) => (a11 * e + a12 * n + b1, a21 * e + a22 * n + b2)
+  | .radial a b, (e, n) => ((e - a) * (e - a) + (n - b) * (n - b), n - b * e)
 
 /-- Inverse of the invertible affine projections (used by `profile`). -/
 def Proj.inverse? : Proj → Option Proj
